@@ -306,7 +306,16 @@ def instances(rng, dtype=torch.float64, batch=(), n=3, psd=False, depth=1, class
     # ---- extra variants (opt-in: `extra=True`; includes instances that hit known defects, tagged "defect:<id>") ----
     if extra and not psd:
         Uu = L.mT.clone()
-        add("Chol[upper]", lambda c, U=Uu: (lambda t: (CholLinearOperator(TriangularLinearOperator(t, upper=True), upper=True), U.mT @ U, [t]))(c(U)), tags=("defect:D01",))
+        add("Chol[upper]", lambda c, U=Uu: (lambda t: (CholLinearOperator(TriangularLinearOperator(t, upper=True), upper=True), U.mT @ U, [t]))(c(U)))
+        mkU = lambda t: CholLinearOperator(TriangularLinearOperator(t, upper=True), upper=True)
+        KU = ri(rng, (*batch, 2, 2), dtype=dtype)
+        add("Kronecker(Chol[upper],Dense)", lambda c, U=Uu, k=KU: (lambda s, t: (KroneckerProductLinearOperator(mkU(s), DenseLinearOperator(t)), kron(U.mT @ U, k), [s, t]))(c(U), c(k)))
+        add("Kronecker(Dense,Chol[upper])", lambda c, U=Uu, k=KU: (lambda s, t: (KroneckerProductLinearOperator(DenseLinearOperator(t), mkU(s)), kron(k, U.mT @ U), [s, t]))(c(U), c(k)))
+        add("Sum(Chol[upper],Dense)", lambda c, U=Uu, a=A: (lambda s, t: (SumLinearOperator(mkU(s), DenseLinearOperator(t)), U.mT @ U + a, [s, t]))(c(U), c(a)))
+        add("BatchRepeat(Chol[upper])", lambda c, U=Uu: (lambda s: (BatchRepeatLinearOperator(mkU(s), batch_repeat=torch.Size(rep)), (U.mT @ U).repeat(*rep, 1, 1), [s]))(c(U)))
+        Ub = torch.triu(ri(rng, (*batch, 2, n, n), -2, 2, dtype))
+        add("BlockDiag(Chol[upper])", lambda c, U=Ub: (lambda s: (BlockDiagLinearOperator(mkU(s)), block_diag_dense(U.mT @ U), [s]))(c(U)))
+        add("BlockInterleaved(Chol[upper])", lambda c, U=Ub: (lambda s: (BlockInterleavedLinearOperator(mkU(s)), block_interleaved_dense(U.mT @ U), [s]))(c(U)))
         UM = _user_minimal_class()
         add("UserMinimal", lambda c, A=A: (lambda t: (UM(t), A, [t]))(c(A)))
         Rw = ri(rng, (*batch, n, n + 2), dtype=dtype)
@@ -315,7 +324,7 @@ def instances(rng, dtype=torch.float64, batch=(), n=3, psd=False, depth=1, class
         from linear_operator.operators import KeOpsLinearOperator
         Xk, Yk = ri(rng, (*batch, n, 2), -2, 2, dtype), ri(rng, (*batch, n + 1, 2), -2, 2, dtype)
         add("KeOps", lambda c, x=Xk, y=Yk: (lambda s, t: (KeOpsLinearOperator(s, t, poly_kernel), x @ y.mT, [s, t]))(c(x), c(y)), tags=("rect",))
-        add("KeOps[params]", lambda c, x=Xk, y=Yk: (lambda s, t: (KeOpsLinearOperator(s, t, poly_kernel, c=2.0), x @ y.mT + 2.0, [s, t]))(c(x), c(y)), tags=("rect", "defect:keops-params"))
+        add("KeOps[params]", lambda c, x=Xk, y=Yk: (lambda s, t: (KeOpsLinearOperator(s, t, poly_kernel, c=2.0), x @ y.mT + 2.0, [s, t]))(c(x), c(y)), tags=("rect",))
         C3a, C3b, C3c = ri(rng, (*batch, 1, n), dtype=dtype), ri(rng, (*batch, n, n), dtype=dtype), ri(rng, (*batch, 2, n), dtype=dtype)
         add("Cat[rows3]", lambda c, a=C3a, b=C3b, e=C3c: (lambda s, t, u: (CatLinearOperator(DenseLinearOperator(s), DenseLinearOperator(t), DenseLinearOperator(u), dim=-2),
                                                                       torch.cat([a, b, e], -2), [s, t, u]))(c(a), c(b), c(e)), tags=("rect",))
